@@ -14,10 +14,10 @@ import (
 const qeepMod = "github.com/sahandsafizadeh/qeep"
 
 type Program struct {
-	prog    *ssa.Program
-	pkgs    map[string]*ssa.Package // by import path
-	overlay map[string][]byte
-	repo    string
+	prog      *ssa.Program
+	pkgs      map[string]*ssa.Package // by import path
+	overlay   map[string][]byte
+	repo      string
 	srcLoaded []string
 }
 
